@@ -652,16 +652,9 @@ fn main() {
                             (w.shred_resp_op(&req, &shred), RepairResponse::Shred(req.clone(), shred), name)
                         }
                     };
-                    // any leader-signed shred with the proven root and the requested indices but the *other* last-slice
-                    // marker (whichever block it was cut from) passes every check of the requester
-                    let is_other_marker = name == "shred-other-last-marker" || match (&resp, &req) {
-                        (RepairResponse::Shred(_, sh), RepairRequestType::Shred(_, i, jx)) => {
-                            let parts = sh.payload().verif_parts();
-                            let i = si_usize(i.clone());
-                            sh.slice_root() == blk.built[i].root && si_usize(parts.1) == i && parts.3 == jx.inner() && ValidatedShred::try_new(sh.clone(), None, &w.pk).is_ok()
-                        }
-                        _ => false,
-                    };
+                    // (a leader-signed shred with the proven root and the requested indices but the *other* last-slice
+                    //  marker, whichever block it was cut from, is an invalid answer since fix D26: the requester compares
+                    //  the marker with the last slice index it proved, so it is treated like every other hostile response)
                     // a "hostile" response that happens to be byte-identical to the honest one (blocks with equal
                     // slices have equal roots / trees) is simply a correct response
                     let same_as_correct = wincode::serialize(&resp).ok() == wincode::serialize(&correct_response(&w, &blk, &req).1).ok();
@@ -670,15 +663,9 @@ fn main() {
                     if same_as_correct { continue; }
                     // a hostile response must not cancel the request it claims to answer
                     let still = w.repair.verif_outstanding().contains(&req);
-                    // (a validly signed shred with the other last-slice marker *is* a valid answer to the request:
-                    //  it passes every check; the Byzantine leader signed both — the blockstore then flags the slot)
-                    if name != "unsolicited" && name != "replay" && !is_other_marker {
+                    if name != "unsolicited" && name != "replay" {
                         let rs = w.req_str(&req);
                         w.rec.oracle(still, "hostile-response-cancels-request", || format!("after `{op}` ({name}) the request {rs} is no longer outstanding (had {before} outstanding)"));
-                    }
-                    if is_other_marker {
-                        // the leader is provably Byzantine now; completion is no longer required
-                        stored_at_some_point = true;
                     }
                 } else if roll < 12 * hostile_level + 6 {
                     w.timeout();
@@ -723,10 +710,12 @@ fn main() {
             };
             let txs: Vec<u64> = specs.iter().flat_map(|s| s.txs.clone().unwrap()).collect();
             let flagged = w.events.iter().any(|e| e == "invalid");
-            if !flagged || !stored_at_some_point {
+            // no exemption any more: since fix D26 no response of this generator (in particular no leader-signed shred with the
+            // other last-slice marker) may reach the blockstore except the leader's own shreds of this block
+            {
                 let outs = w.outstanding().iter().map(|r| w.req_str(r)).collect::<Vec<_>>();
                 w.rec.oracle(res.as_ref().is_some_and(|(h, p, ids)| *h == blk.hash && *p == fp && *ids == txs), "repair-derailed", || {
-                    format!("repair of a {n}-slice block did not complete although every outstanding request was finally answered correctly (hostile level {hostile_level}); outstanding now: {:?}", outs)
+                    format!("repair of a {n}-slice block did not complete although every outstanding request was finally answered correctly (hostile level {hostile_level}, slot flagged: {flagged}, stored at some point: {stored_at_some_point}); outstanding now: {:?}", outs)
                 });
             }
             if let Some((h, _, _)) = &res {
@@ -844,7 +833,9 @@ fn main() {
             w.rec.end_case(c, true);
         }
 
-        // ================= Byzantine leader: the prefix block filed under the long block's hash =================
+        // ================= Byzantine leader: slice j < n-1 also signed with the last marker, served by a hostile responder =================
+        // (before fix D26 every such shred was accepted: the prefix block was built under the long block's hash, D19; now each of
+        //  them is dropped by the requester, the request stays outstanding, and an honest peer can still complete the repair)
         {
             let n = rng.range(2, max_n.max(2)) as usize;
             let slot = rng.range(2, 30);
@@ -861,22 +852,29 @@ fn main() {
             let pre = w.declare(slot, prefix);
             w.repair_block(slot, blk.hid, &blk.hash);
             let bid: BlockId = (Slot::new(slot), blk.hash.clone());
-            // the responder answers root requests honestly but serves slice j with the last marker, slices 0..j first
+            // the responder answers root requests honestly but serves slice j with the last marker (each request once), slices 0..j first
+            let mut tried: Vec<RepairRequestType> = vec![];
             let mut guard = 0;
             loop {
                 guard += 1;
                 let out = w.outstanding();
                 if out.is_empty() || guard > 4000 { break; }
-                let req = out.iter().find(|r| match r { RepairRequestType::Shred(_, i, _) => si_usize(*i) <= j, _ => true }).cloned();
+                let req = out.iter().find(|r| match r { RepairRequestType::Shred(_, i, _) => si_usize(*i) <= j && !tried.contains(r), _ => true }).cloned();
                 let Some(req) = req else { break };
-                let (op, resp) = match &req {
+                let (op, resp, evil) = match &req {
                     RepairRequestType::Shred(_, i, jx) if si_usize(*i) == j => {
                         let shred = early_b.shreds[jx.inner()].clone().into_shred();
-                        (w.shred_resp_op(&req, &shred), RepairResponse::Shred(req.clone(), shred))
+                        (w.shred_resp_op(&req, &shred), RepairResponse::Shred(req.clone(), shred), true)
                     }
-                    _ => correct_response(&w, &blk, &req),
+                    _ => { let (op, resp) = correct_response(&w, &blk, &req); (op, resp, false) }
                 };
-                if !w.respond(op, resp, "early-last-marker") { break; }
+                if !w.respond(op.clone(), resp, if evil { "early-last-marker" } else { "correct" }) { break; }
+                if evil {
+                    tried.push(req.clone());
+                    let still = w.repair.verif_outstanding().contains(&req);
+                    let rs = w.req_str(&req);
+                    w.rec.oracle(still, "hostile-response-cancels-request", || format!("after `{op}` (slice {j} of a {n}-slice block signed with the last-slice marker) the request {rs} is no longer outstanding"));
+                }
                 let got = w.rt.block_on(async { w.store.read().await.get_block(&bid).map(|b| b.verif_hash().clone()) });
                 if let Some(h) = &got {
                     w.rec.oracle(*h == blk.hash, "stored-under-wrong-id", || format!("prefix block of {} slices stored under the hash of the {n}-slice block", j + 1));
@@ -885,12 +883,31 @@ fn main() {
             w.q_blk(slot, blk.hid, &blk.hash);
             w.q_blk(slot, pre.hid, &pre.hash);
             w.rec.oracle(!w.events.iter().any(|e| e.starts_with("block")), "announced-under-wrong-id", || format!("events {:?}", w.events));
+            // an honest peer now answers everything that is still outstanding: the repair must complete
+            let mut guard = 0;
+            loop {
+                guard += 1;
+                let out = w.outstanding();
+                if out.is_empty() || guard > 4000 { break; }
+                let req = out[0].clone();
+                let (op, resp) = correct_response(&w, &blk, &req);
+                if !w.respond(op, resp, "correct") { break; }
+            }
+            let res = w.q_blk(slot, blk.hid, &blk.hash);
+            w.q_blk(slot, pre.hid, &pre.hash);
+            let outs = w.outstanding().len();
+            let txs: Vec<u64> = specs.iter().flat_map(|s| s.txs.clone().unwrap()).collect();
+            w.rec.oracle(res.as_ref().is_some_and(|(h, _, ids)| *h == blk.hash && *ids == txs), "repair-derailed", || {
+                format!("a hostile responder served slice {j} of a {n}-slice block with the last-slice marker, then an honest peer answered every outstanding request: the block is not stored ({outs} requests outstanding)")
+            });
+            let want = format!("block {} ", blk.hid);
+            w.rec.oracle(w.events.iter().filter(|e| e.starts_with("block")).all(|e| e.starts_with(&want)), "announced-under-wrong-id", || format!("events {:?}", w.events));
             let c = w.class;
             w.rec.end_case(c, true);
         }
 
-        // ================= D26: ONE leader-signed shred with the other last-slice marker derails the repair for good =================
-        // (Lean witness `AgModel.Repair.derail_by_last_marker`; `repair_completes` needs `Admissible` for exactly this reason)
+        // ================= regression D26 (fixed): leader-signed shreds with the other last-slice marker are dropped, the repair completes =================
+        // (Lean: `AgModel.Repair.last_marker_no_longer_derails`; before the fix ONE such shred derailed the repair for good)
         {
             let n = rng.range(2, max_n.max(2)) as usize;
             let slot = rng.range(2, 30);
@@ -898,26 +915,42 @@ fn main() {
             let specs = honest_specs(&mut rng, n, slot, 1);
             let built: Vec<Built> = specs.iter().map(|s| w.build(slot, s)).collect();
             let blk = w.declare(slot, built);
-            // the Byzantine leader signed a non-last slice j (same content, hence same slice root) also with the last marker
+            // the Byzantine leader signed a non-last slice j (same content, hence same slice root) also with the last marker,
+            // and the last slice also without it
             let j = rng.below(n as u64 - 1) as usize;
             let mut early = specs[j].clone();
             early.is_last = true;
             let early_b = w.build(slot, &early);
+            let mut late = specs[n - 1].clone();
+            late.is_last = false;
+            let late_b = w.build(slot, &late);
             w.repair_block(slot, blk.hid, &blk.hash);
-            let mut evil_sent = false;
+            let mut evil_sent = [false, false];
+            let mut dropped = 0;
             let mut guard = 0;
             loop {
                 guard += 1;
                 let out = w.outstanding();
                 if out.is_empty() || guard > 4000 { break; }
-                // one hostile peer answers the first shred request of slice j; an honest peer answers everything else
-                let evil_req = if evil_sent { None } else { out.iter().find(|r| matches!(r, RepairRequestType::Shred(_, i, _) if si_usize(*i) == j)).cloned() };
-                if let Some(req) = evil_req {
+                // a hostile peer answers the first shred request of slice j and of the last slice; an honest peer answers everything else
+                let mut evil: Option<(usize, RepairRequestType, &Built)> = None;
+                for (k, (sl, b)) in [(j, &early_b), (n - 1, &late_b)].into_iter().enumerate() {
+                    if evil.is_none() && !evil_sent[k] {
+                        if let Some(r) = out.iter().find(|r| matches!(r, RepairRequestType::Shred(_, i, _) if si_usize(*i) == sl)) {
+                            evil = Some((k, r.clone(), b));
+                        }
+                    }
+                }
+                if let Some((k, req, b)) = evil {
                     let jx = match &req { RepairRequestType::Shred(_, _, jx) => jx.inner(), _ => 0 };
-                    let shred = early_b.shreds[jx].clone().into_shred();
+                    let shred = b.shreds[jx].clone().into_shred();
                     let op = w.shred_resp_op(&req, &shred);
-                    evil_sent = true;
-                    if !w.respond(op, RepairResponse::Shred(req.clone(), shred), "other-last-marker") { break; }
+                    evil_sent[k] = true;
+                    if !w.respond(op.clone(), RepairResponse::Shred(req.clone(), shred), "other-last-marker") { break; }
+                    let still = w.repair.verif_outstanding().contains(&req);
+                    if still { dropped += 1; }
+                    let rs = w.req_str(&req);
+                    w.rec.oracle(still, "hostile-response-cancels-request", || format!("after `{op}` (leader-signed shred with the proven slice root but the other last-slice marker) the request {rs} is no longer outstanding"));
                     continue;
                 }
                 let req = out[0].clone();
@@ -926,9 +959,12 @@ fn main() {
             }
             let res = w.q_blk(slot, blk.hid, &blk.hash);
             let outs = w.outstanding().len();
+            if dropped > 0 { w.rec.count("other-last-marker:dropped"); }
             if res.is_none() { w.rec.count("derailed-by-other-last-marker"); }
-            w.rec.oracle(res.is_some(), "repair-derailed-by-signed-variant", || {
-                format!("one leader-signed shred of slice {j} carrying the other last-slice marker (same slice root) was accepted for a {n}-slice block; every request was then answered correctly by an honest peer while outstanding; now {outs} requests are outstanding and the block is not stored")
+            let flagged = w.events.iter().any(|e| e == "invalid");
+            let txs: Vec<u64> = specs.iter().flat_map(|s| s.txs.clone().unwrap()).collect();
+            w.rec.oracle(res.as_ref().is_some_and(|(h, _, ids)| *h == blk.hash && *ids == txs) && !flagged, "repair-derailed-by-signed-variant", || {
+                format!("leader-signed shreds of slice {j} / of the last slice carrying the other last-slice marker (same slice root) were sent by a hostile peer for a {n}-slice block; every request was then answered correctly by an honest peer while outstanding; now {outs} requests are outstanding and the block is not stored (slot flagged: {flagged})")
             });
             let c = w.class;
             w.rec.end_case(c, true);
